@@ -1,5 +1,6 @@
 import CollectionsC.Properties.C05
 import CollectionsC.Proofs.DequeCross
+import CollectionsC.Properties.C07Deque
 /-! # C06 (deque part) — memory safety and leak freedom
 
 What the model can carry (see DESIGN §8 C06): every slot index used by every operation is below the
@@ -24,14 +25,14 @@ theorem step_safe (d : Deque) (m : Mem) (op : Op) (hi : d.Inv) :
     · cases op
       case addAt x i => exact (Deque.addAt_inv d x i m hi).1
       all_goals exact hD3.elim
-    · rcases step_refines d m op hi hD3 with ⟨_, _, s3, _⟩ | ⟨_, _, s3, _⟩
+    · rcases step_refines_partial d m op hi hD3 with ⟨_, _, s3, _⟩ | ⟨_, _, s3, _⟩
       · exact s3
       · rw [s3]; exact hi
   · by_cases hD3 : inD3 d.size op
     · cases op
       case addAt x i => exact (Deque.addAt_inv d x i m hi).2.1
       all_goals exact hD3.elim
-    · rcases step_refines d m op hi hD3 with ⟨_, _, _, s4⟩ | ⟨_, _, _, s4, _⟩
+    · rcases step_refines_partial d m op hi hD3 with ⟨_, _, _, s4⟩ | ⟨_, _, _, s4, _⟩
       · exact s4
       · exact s4
 
@@ -136,6 +137,59 @@ theorem destroy_releases_all (confCap : Nat) (t : Triple) (m0 : Mem) (ops : List
     exact ⟨d0, n2, Deque.memD_norm (k := 0) (j := 2) (by simpa using Deque.memD_trans hd hrun)⟩
   · exact Or.inr ⟨n2, n3⟩
 
+/-- **iterator programs are safe as a whole**: any program of iterator calls (next / remove / add / replace /
+index in any pattern, from any cursor, `add` also inside finding D3's range, any refusal schedule) keeps the
+invariant, the fault flag, both ledger balances and the deque's triple -/
+theorem iterator_program_safe (ops : List C07Deque.IOp) (it : Deque.Iter) (d : Deque) (m : Mem) (hi : d.Inv) :
+    (C07Deque.runI it d m ops).2.2.1.Inv ∧ Deque.memSame d.triple (C07Deque.runI it d m ops).2.2.2 m ∧
+    (C07Deque.runI it d m ops).2.2.1.triple = d.triple := by
+  induction ops generalizing it d m with
+  | nil => exact ⟨hi, Deque.memSame_refl _ m, rfl⟩
+  | cons op ops ih =>
+    have hstep : (C07Deque.stepI it d m op).2.2.1.Inv ∧ Deque.memSame d.triple (C07Deque.stepI it d m op).2.2.2 m := by
+      obtain ⟨n4, ⟨r5, r6⟩, ⟨p4, p5⟩, ⟨a1, a2⟩⟩ := iterator_safe it d 0 m hi
+      cases op with
+      | next => exact ⟨hi, by simp only [C07Deque.stepI]; rw [n4]; exact Deque.memSame_refl _ m⟩
+      | remove => exact ⟨r5, by simp only [C07Deque.stepI]; rw [r6]; exact Deque.memSame_refl _ m⟩
+      | add x => exact ⟨(iterator_safe it d x m hi).2.2.2.1, (iterator_safe it d x m hi).2.2.2.2⟩
+      | replace x =>
+        exact ⟨(iterator_safe it d x m hi).2.2.1.1, by
+          simp only [C07Deque.stepI]; rw [(iterator_safe it d x m hi).2.2.1.2]; exact Deque.memSame_refl _ m⟩
+      | index => exact ⟨hi, Deque.memSame_refl _ m⟩
+    have htr := C07Deque.stepI_triple it d m op
+    obtain ⟨r1, r2, r3⟩ := ih (C07Deque.stepI it d m op).2.1 (C07Deque.stepI it d m op).2.2.1
+      (C07Deque.stepI it d m op).2.2.2 hstep.1
+    simp only [C07Deque.runI]
+    rw [htr] at r2 r3
+    exact ⟨r1, Deque.memSame_trans r2 hstep.2, r3⟩
+
+/-- **whole lifecycle with an iterator session**: construct (any capacity, either triple, any schedule), run
+any history, run any iterator program over the result, destroy — both balances are back where they started,
+nothing faulted, the other triple saw no event -/
+theorem lifecycle_with_iterator_releases_all (confCap : Nat) (t : Triple) (m0 : Mem) (ops : List Op)
+    (prog : List C07Deque.IOp) (d0 : Deque) (h : (Deque.new confCap t m0).2.1 = some d0) :
+    Deque.memSame t
+      ((C07Deque.runI {} (runM d0 (Deque.new confCap t m0).2.2 ops).2.1
+          (runM d0 (Deque.new confCap t m0).2.2 ops).2.2 prog).2.2.1.destroy
+        (C07Deque.runI {} (runM d0 (Deque.new confCap t m0).2.2 ops).2.1
+          (runM d0 (Deque.new confCap t m0).2.2 ops).2.2 prog).2.2.2) m0 := by
+  rcases Deque.new_spec confCap t m0 with ⟨_, d, n2, n3, _, _, n6, n7, _⟩ | ⟨_, n2, _⟩
+  · rw [n2] at h; cases h
+    obtain ⟨h1, h2, h3⟩ := history_nofault ops d0 (Deque.new confCap t m0).2.2 n3
+    obtain ⟨p1, p2, p3⟩ := iterator_program_safe prog {} _ (runM d0 (Deque.new confCap t m0).2.2 ops).2.2 h1
+    rw [h3, n6] at p2 p3
+    rw [n6] at h2
+    have hrun : Deque.memRel t 2 (C07Deque.runI {} (runM d0 (Deque.new confCap t m0).2.2 ops).2.1
+        (runM d0 (Deque.new confCap t m0).2.2 ops).2.2 prog).2.2.2 m0 :=
+      Deque.memRel_same p2 (Deque.memRel_same h2 n7)
+    have hd := Deque.destroy_ledger (C07Deque.runI {} (runM d0 (Deque.new confCap t m0).2.2 ops).2.1
+        (runM d0 (Deque.new confCap t m0).2.2 ops).2.2 prog).2.2.1
+      (C07Deque.runI {} (runM d0 (Deque.new confCap t m0).2.2 ops).2.1
+        (runM d0 (Deque.new confCap t m0).2.2 ops).2.2 prog).2.2.2 (by rw [p3]; have := hrun.1; omega)
+    rw [p3] at hd
+    exact Deque.memD_norm (k := 0) (j := 2) (by simpa using Deque.memD_trans hd hrun)
+  · rw [n2] at h; cases h
+
 /-- ledger consistency: the two blocks a deque owns (header, buffer) are accounted for on its triple.  It is
 established by the constructor and the builders and preserved by every operation, so it is not an extra
 assumption about reachable states -/
@@ -170,7 +224,7 @@ theorem callbacks_visit_each_once (d : Deque) (m : Mem) (hi : d.Inv) (hlive : Ow
 /-- non-vacuity: a wrapped, exactly full deque on the C library triple grows without touching the
 configured side of the ledger -/
 example : (Deque.mk 4 4 3 3 [12, 13, 14, 11] .libc).Inv ∧
-    (stepM (Deque.mk 4 4 3 3 [12, 13, 14, 11] .libc) { sched := [true], liveLibc := 2 } (.addLast 5)).1 = ⟨some .ok, none⟩ ∧
+    (stepM (Deque.mk 4 4 3 3 [12, 13, 14, 11] .libc) { sched := [true], liveLibc := 2 } (.addLast 5)).1 = ⟨some .ok, none, []⟩ ∧
     (stepM (Deque.mk 4 4 3 3 [12, 13, 14, 11] .libc) { sched := [true], liveLibc := 2 } (.addLast 5)).2.2.liveLibc = 2 := by
   decide
 
